@@ -10,7 +10,7 @@ VARIABLES l, bad
 RunFed(r) == /\ \A k \in 1..Len(r.gen.ids) : r.gen.ids[k] \in AlphaIds /\ r.gen.text[k] = Alpha[r.gen.ids[k]]
              /\ Len(r.gen.text) = Len(r.gen.ids)
              /\ r.fed = JoinLines(r.gen.text, r.gen.nl)
-RunExpected(r) == TestRun(r.gen.text, r.gen.nl)
+RunExpected(r) == TestRun(r.gen.ids, r.gen.nl)
 RunOk(r) == LET x == RunExpected(r) IN
             /\ RunFed(r)
             /\ r.obs.verdict = x.verdict          \* accepted | rejected | error - never abort or hang
